@@ -148,3 +148,39 @@ def run(ctx):
                        "DELETE can refuse (relationships still attached) after it already tombstoned earlier targets: in an explicit transaction the refused "
                        "statement's partial deletes are committed with the next commit", v.loc())
     ctx.floor("C13.4", "safety checks in DELETE executors", n4, 2)
+
+    # ---- clause 5: MERGE evaluates everything that can fail before it creates anything ------------------------------------------
+    # A relationship MERGE evaluates the property maps of both endpoints and of the relationship (each can raise a runtime error) and then
+    # creates what is missing.  With no statement-level savepoint, an evaluation that happens after a node was created leaves that node staged
+    # when it fails; in an explicit transaction the next commit makes it permanent.
+    ctx.rule("C13.5", "in the MERGE create executors no property-map evaluation of a row is reachable, within the same row iteration, from a creating call (create node / relationship, set property)")
+    EVALP = "merge_eval_props_on_row"
+    CREATORS = ("merge_create_node", "create_node", "create_edge", "merge_create_edge", "set_node_property", "set_edge_property")
+    n5 = 0
+    for i, b in sorted(F.bodies.items()):
+        if not i.startswith("nervusdb_query::executor::merge_") or "::tests::" in i or b.root:
+            continue
+        evs = [c for c in b.calls() if c.name.split("::")[-1] == EVALP]
+        cre = [c for c in b.calls() if c.name.split("::")[-1] in CREATORS or c.declared.split("::")[-1] in CREATORS]
+        if not evs or not cre:
+            continue
+        from ..evalguard import _loop_header, _loop_blocks
+        for k, e in enumerate(sorted(evs, key=lambda c: (c.line, c.bb))):
+            n5 += 1
+            # the row loop this evaluation belongs to: the outermost loop containing it (inner loops iterate candidates of the same row)
+            hdr = None
+            h = _loop_header(b, e.bb)
+            while h is not None:
+                hdr = h
+                outer = None
+                for h2 in range(len(b.blocks)):
+                    if h2 != h and b.dominates(h2, h) and any(b.dominates(h2, p_) for p_ in b.preds(h2)) and h in _loop_blocks(b, h2):
+                        if outer is None or b.dominates(outer, h2):
+                            outer = h2
+                h = outer
+            before = [m for m in cre if m.target is not None and e.bb in b.reachable([m.target], avoid=[hdr] if hdr is not None else [])]
+            ctx.instance("C13.5", "%s: property-map evaluation #%d reachable from %d creating call(s) of the same row" % (i.split("::")[-1], k, len(before)))
+            ctx.oblige(not before, "C13.5", "%s:eval#%d-after-create" % (i, k),
+                       "a property map that can fail at run time is evaluated after %s already created something for the same row: the failed MERGE leaves the "
+                       "created node staged in an explicit transaction" % sorted({m.name.split("::")[-1] for m in before}), e.loc())
+    ctx.floor("C13.5", "property-map evaluations in MERGE create executors", n5, 3)
